@@ -222,7 +222,9 @@ func runChild(ctx *core.Ctx, in *ChildInput) *ChildOutput {
 		ctx.ToolError("%v", err)
 		return nil
 	}
-	defer os.RemoveAll(dir)
+	if os.Getenv("C09_KEEP") == "" {
+		defer os.RemoveAll(dir)
+	}
 	inPath, outPath, logPrefix := filepath.Join(dir, "in.json"), filepath.Join(dir, "out.json"), filepath.Join(dir, "race")
 	b, _ := json.Marshal(in)
 	if err := os.WriteFile(inPath, b, 0o644); err != nil {
